@@ -63,3 +63,10 @@ Proof.
   - induction cells; cbn [map]; constructor; [apply cell_adv_exec_ok | assumption].
   - induction cells; cbn [map]; constructor; [rewrite Qred_correct, cell_adv_exec_ok; reflexivity | assumption].
 Qed.
+
+(* the A2C minibatch twin feeds a2c_batch_Q the same columns (second mutation sample: pins return = advantage + value) *)
+Lemma a2c_minibatch_unfold ec vc he norm std g l cols cells lps vs ents :
+  a2c_minibatch_Q ec vc he norm std g l cols cells lps vs ents =
+  a2c_batch_Q ec vc he (maybe_norm norm std (fst (mb_columns_exec g l cols cells))) lps
+    (fst (snd (mb_columns_exec g l cols cells))) vs ents.
+Proof. reflexivity. Qed.
